@@ -1,7 +1,8 @@
 #!/usr/bin/env python3
 """Confirm and evaluate candidate mutants.
 
-usage: eval_mutants.py <mutant-dir>...        (each dir holds patch.diff + demo + README.md)
+usage: eval_mutants.py [--equiv] <mutant-dir>...   (each dir holds patch.diff + demo + README.md;
+       --equiv: behaviour-preserving rewrites, no demo, every check must stay silent)
 
 For every mutant, in a scratch git worktree of /repo's HEAD (outside /repo and /verif):
   1. demo passes on the clean tree
@@ -87,8 +88,11 @@ def evaluate(mdir):
             return res
         dc = demo_cmd(mdir, wt)
         if dc is None:
-            res["error"] = "no demo"
-            return res
+            if not EQUIV:
+                res["error"] = "no demo"
+                return res
+            # behaviour-preserving rewrite: there is nothing to demonstrate
+            dc = (lambda: None, ["true"], lambda: None)
         setup, cmd, cleanup = dc
         setup()
         rc, out = run(cmd, wt, timeout=300)
@@ -132,15 +136,22 @@ def evaluate(mdir):
                 elif rc != 0:
                     fired[p] = ["ERROR rc=%d" % rc]
         res["fired"] = fired
-        res["confirmed"] = bool(res.get("demo_clean_rc") == 0 and res["applies"] and res["builds"] and res["suite_passes"] and res["demo_patched_rc"] != 0)
+        res["confirmed"] = bool(res.get("demo_clean_rc") == 0 and res["applies"] and res["builds"] and res["suite_passes"] and (res["demo_patched_rc"] != 0 or EQUIV))
     finally:
         run(["git", "-C", "/repo", "worktree", "remove", "--force", wt], "/")
         shutil.rmtree(scratch, ignore_errors=True)
     return res
 
 
+EQUIV = False
+
 if __name__ == "__main__":
     dirs = sys.argv[1:]
+    if dirs and dirs[0] == "--equiv":
+        # behaviour-preserving rewrites: no demo; "confirmed" = applies, builds, suite passes;
+        # "fired" must be empty
+        EQUIV = True
+        dirs = dirs[1:]
     with concurrent.futures.ThreadPoolExecutor(max_workers=3) as ex:
         for r in ex.map(evaluate, dirs):
             print(json.dumps(r))
